@@ -1,8 +1,9 @@
 module verif/harness
 
-go 1.13
+go 1.16
 
 require (
+	golang.org/x/text v0.3.2
 	github.com/asticode/go-astikit v0.20.0
 	github.com/asticode/go-astisub v0.0.0
 	github.com/asticode/go-astits v1.8.0
